@@ -1858,9 +1858,11 @@ func (w *transformingWriter) Close() error {
 				w.rw.reportError(err)
 			}
 		}
-	} else if w.err == nil && w.buffer != nil && w.buffer.Len() > 0 {
+	} else if w.err == nil && w.buffer != nil && (w.buffer.Len() > 0 || (!w.writingEnvelope && w.expectingBytes > 0)) {
 		// Unfinished body! (After an error, w.buffer may name a buffer that
-		// the failed message has already given back to the pool.)
+		// the failed message has already given back to the pool.) That
+		// includes an envelope that announced a payload of which not a
+		// single byte followed.
 		if w.writingEnvelope {
 			w.rw.reportError(fmt.Errorf("handler only wrote %d out of %d bytes of message envelope", w.buffer.Len(), envelopeLen))
 		} else {
